@@ -18,7 +18,7 @@ m = {
                    'tools/try_seeded.sh patch.diff %s quick (git -C /repo apply; vcheck run; git -C /repo checkout -- .)' % prop],
     'detected_by_check': detected == 'yes', 'caught_by': caught,
 }
-if sid.startswith('u'):
+if sid[0] in 'uv':
     m['what_i_ran'].insert(1, 'tools/try_seeded2.sh patch.diff %s quick (same check against a scratch copy of /repo with the patch applied, VERIF_REPO; used while a long run occupied /repo)' % prop)
 json.dump(m, open(d + '/meta.json', 'w'), indent=1)
 rows = []
